@@ -10,7 +10,7 @@ import logging
 
 import kopf
 import vkopf
-from vkopf.driver_api import Ob, split
+from vkopf.driver_api import Ob, split, sample
 from vkopf.loop import ClosedLoop, read_lhc, progress_keys
 from vkopf.symloop import Deadlock, Diverged, Livelock, cancel_all_others
 from vkopf.world import base_body, PLURAL
@@ -157,8 +157,7 @@ def obligations():
                 s0=list(range(7)))
     obs.append(Ob('h_resume', {'n': 3, 'handled_before': True, 'pin': {'s0': 3, 's1': 2, 's2': 1}}, timeout=900, path_timeout=300))
     obs.append(Ob('h_resume', {'n': 3, 'handled_before': True, 'pin': {'s0': 3, 's1': 2, 's2': 0}}, timeout=900, path_timeout=300))
-    obs += split(Ob('h_resume', {'n': 3, 'handled_before': False}, timeout=3000, path_timeout=300, tiers=('thorough',)),
-                 s0=list(range(7)), s1=list(range(7)))
-    obs += split(Ob('h_resume', {'n': 3, 'handled_before': True}, timeout=3000, path_timeout=300, tiers=('thorough',)),
-                 s0=list(range(7)), s1=list(range(7)))
+    R = list(range(7))
+    obs += sample(Ob('h_resume', {'n': 3, 'handled_before': False}, timeout=900, path_timeout=300, tiers=('thorough',)), 24, seed=141, s0=R, s1=R, s2=R)
+    obs += sample(Ob('h_resume', {'n': 3, 'handled_before': True}, timeout=900, path_timeout=300, tiers=('thorough',)), 60, seed=142, s0=R, s1=R, s2=R)
     return obs
